@@ -235,7 +235,7 @@ func C18() int {
 		if has(bEnvPair) {
 			env = append(env, "ATLAS_PUBLIC_KEY="+atlasPub, "ATLAS_PRIVATE_KEY="+atlasPriv)
 		}
-		if !has(bEnvPair) && m%2 == 1 {
+		if !has(bEnvPair) && (m/2+m/64+m/256)%2 == 1 {
 			// exported but empty: that is no key pair
 			env = append(env, "ATLAS_PUBLIC_KEY=", "ATLAS_PRIVATE_KEY=")
 			c.Count("runs_with_empty_key_variables", 1)
